@@ -96,8 +96,30 @@ fn compositions(ctx: &Ctx, sink: &mut Sink) {
       None => continue,
     };
     let (y, qj, qs, gi, lj, ls) = ec_fields(&t);
-    let a = catch_iso(|| ec4(&t.get_lunar_hour().get_eight_char())).unwrap_or(vec![-9; 4]);
-    let b = catch_iso(|| ec4(&t.get_sixty_cycle_hour().get_eight_char())).unwrap_or(vec![-9; 4]);
+    // every third instant is reached by stepping: a neighbouring lunar hour is built, asked for its own views
+    // (which fills its per-value memos) and stepped by n double-hours; the result must carry the characters of t
+    let (a, b) = if k % 3 == 2 {
+      let n = { let x = rng.range(1, 11); if rng.range(0, 1) == 0 { x } else { -x } };
+      let lh = catch_iso(|| {
+        let l0 = t.next(-7200 * n as isize).get_lunar_hour();
+        let _ = l0.get_sixty_cycle_hour();
+        let _ = l0.get_solar_time();
+        let _ = l0.get_eight_char();
+        l0.next(n as isize)
+      });
+      match lh {
+        Some(l) => (
+          catch_iso(|| ec4(&l.get_eight_char())).unwrap_or(vec![-9; 4]),
+          catch_iso(|| ec4(&l.get_sixty_cycle_hour().get_eight_char())).unwrap_or(vec![-9; 4]),
+        ),
+        None => (vec![-9; 4], vec![-9; 4]),
+      }
+    } else {
+      (
+        catch_iso(|| ec4(&t.get_lunar_hour().get_eight_char())).unwrap_or(vec![-9; 4]),
+        catch_iso(|| ec4(&t.get_sixty_cycle_hour().get_eight_char())).unwrap_or(vec![-9; 4]),
+      )
+    };
     sink.put(Ev::new("ec").i("s", 0).i("y", y).i("qj", qj).i("qs", qs).i("gi", gi).i("lj", lj).i("ls", ls).a("a", &a).a("b", &b).done());
   }
 }
